@@ -191,31 +191,35 @@ theorem lookupCommand_eq (pre : Predef) (n : Node J V) (hwf : Node.WF pre n) (m 
 
 /-! ### the chain of checks -/
 
+theorem outsidePair_false_iff (env : Env V) (lim : Option V) (v : V) :
+    outsidePair env lim v = false ↔ InsidePair env lim v := by
+  unfold outsidePair InsidePair
+  cases lim with
+  | none => simp
+  | some l => simp
+
 theorem checkLimits_of_ok (env : Env V) (mod : Module J V) (attr : String) (v : V)
     (h : LimitsOK env mod attr v) : checkLimits env mod attr v = .pass := by
   unfold LimitsOK at h; unfold checkLimits
-  split at h
-  · rename_i lim hl; simp [hl, h.1, h.2]
-  · rename_i hl; simp [hl, h.1, h.2.1, h.2.2]
+  have h0 := (outsidePair_false_iff env _ v).2 h.1
+  simp [h0, h.2.1, h.2.2.1, h.2.2.2]
 
 theorem checkLimits_of_not_ok (env : Env V) (mod : Module J V) (attr : String) (v : V)
     (h : ¬ LimitsOK env mod attr v) : checkLimits env mod attr v = .raise (mkErr .rangeError) := by
   unfold LimitsOK at h; unfold checkLimits
-  split at h
-  · rename_i lim hl
-    simp only [hl]
-    split
-    · rename_i hc; exact absurd (by simpa using hc) h
-    · rfl
-  · rename_i hl
-    simp only [hl]
+  split
+  · rfl
+  · rename_i h0
+    simp only
     split
     · rfl
     · split
       · rfl
       · split
         · rfl
-        · rename_i h1 h2 h3; exact absurd ⟨by simpa using h1, by simpa using h2, by simpa using h3⟩ h
+        · rename_i h1 h2 h3
+          exact absurd ⟨(outsidePair_false_iff env _ v).1 (by simpa using h0), by simpa using h1, by simpa using h2,
+            by simpa using h3⟩ h
 
 theorem runChecks_cls (env : Env V) (mod : Module J V) (attr : String) (v : V) (cs : List Check) :
     (runChecks (checkOne env mod attr v) cs).map (·.cls) = chainVerdict env mod attr v cs := by
@@ -317,9 +321,12 @@ theorem handleChange_verdict (pre : Predef) (env : Env V) (n : Node J V) (hwf : 
             | error e => rfl
             | ok v =>
               simp only
-              cases hrev : p.dt.revalidate v with
-              | error e => rfl
-              | ok w =>
+              by_cases hinv : (p.isLimitsPair && pairInverted env v) = true
+              · simp [hinv, refuse, mkErr]
+              · simp only [hinv, Bool.false_eq_true, if_false]
+                cases hrev : p.dt.revalidate v with
+                | error e => rfl
+                | ok w =>
                 simp only
                 have hcls := runChecks_cls env mod p.attr v p.checks
                 cases hrun : runChecks (checkOne env mod p.attr v) p.checks with
@@ -331,7 +338,7 @@ theorem handleChange_verdict (pre : Predef) (env : Env V) (n : Node J V) (hwf : 
                   rw [← hcls]
                   refine ⟨mod, p, hmem.1, rfl, rfl, rfl, ?_, ?_, rfl⟩
                   · exact ⟨m, a, rfl, by rw [lookupParam_eq pre n hwf m a, hm]; simp only [hp]⟩
-                  · simp only [hc, hr, Bool.false_eq_true, if_false, hacc, hrev, hrun]
+                  · simp only [hc, hr, Bool.false_eq_true, if_false, hacc, hinv, hrev, hrun]
 
 /-- the model follows the specification's decision list (do) -/
 theorem handleDo_verdict (pre : Predef) (env : Env V) (n : Node J V) (hwf : Node.WF pre n) (spec : Spec)
